@@ -76,7 +76,7 @@ def guard_trees(func, blocks, b, skip_loops=True):
         other = s1 if in0 else s0
         if other == b or _reaches_avoiding(func, other, b, d):
             continue        # b is (after) the join of this branch: reachable from the other side too
-        if term.get('c') == 'BinaryOperator' and _feeds_vshape(func, d):
+        if term.get('c') == 'BinaryOperator' and _feeds_vshape(func, d, doms):
             continue        # operand block of a value-shaped condition: the statement's block carries the guard
         for atom, tv in implied_atoms(c, in0):
             ce, pol = strip_not(atom)
@@ -85,10 +85,13 @@ def guard_trees(func, blocks, b, skip_loops=True):
     return out
 
 
-def _feeds_vshape(func, d):
+def _feeds_vshape(func, d, doms=None):
+    """d is an operand block of a value-shaped condition whose statement block lies before the
+    block in question (doms = its dominators).  A block that evaluates a later operand of the
+    same condition is still guarded by the earlier operands."""
     for s2 in func.blocks[d]['succ']:
         t2 = func.blocks[s2].get('term') if s2 in func.blocks else None
-        if t2 and t2.get('vshape'):
+        if t2 and t2.get('vshape') and (doms is None or s2 in doms):
             return True
     return False
 
